@@ -333,7 +333,10 @@ func rollReplayOne(r *hx.Result, c *rrCase, dir string) {
 		}
 		break
 	}
-	hx.Catch(func() { app.Stop() })
+	// one more Stop, whatever the history did before (an appender tolerates a second Stop)
+	if ret, p := hx.Within(8*time.Second, func() { app.Stop() }); !ret || p != nil {
+		viol("stop-failed:final", "a further Stop at the end of the history returned=%v panic=%v", ret, p)
+	}
 	if curDir == away {
 		_ = os.Rename(away, dir)
 	}
